@@ -192,6 +192,67 @@ for _r in ("RefLine", "RefTri", "RefQuad", "RefTet", "RefHex"):
     UNITS["split/" + _r] = split_unit(_r)
 
 
+def composite_basis(ctx):
+    """CompositeBasis of n >= 2 bases: element_dofs, N, Nbfun, split and interpolate use the SAME cumulative offsets (all sizes; n = 2, 3, 4)"""
+    import skfem.assembly.basis.composite_basis as CBm
+    fn = ctx.function(CBm.CompositeBasis.element_dofs.fget)
+    for nb in (2, 3, 4):
+        for equal in (False, True):
+            with sarr.index_context() as c:
+                nt = c.size("nt", 1)
+
+                class B:
+                    pass
+                bases = []
+                for k in range(nb):
+                    b = B()
+                    b.Nbfun, b.N = c.size("Nb%d" % k, 1), c.size("N%d" % k, 1)
+                    b.element_dofs = SArr.input("dofs%d" % k, (b.Nbfun, nt), lo=0, hi=b.N)
+                    b.W = [0., 1.]
+                    b.elem = None
+                    bases.append(b)
+                with sarr.mode_i([CBm]):
+                    cb = CBm.CompositeBasis(*bases, equal_dofnum=equal)
+                    ed = cb.element_dofs
+                    N, Nbf = cb.N, cb.Nbfun
+                pre = "composite/n%d/%s" % (nb, "equal-dofnum" if equal else "stacked")
+                k_ = c.skolem("k", 0, nt.t)
+                off, row = C(0), C(0)
+                for j, b in enumerate(bases):
+                    r = c.skolem("r%d" % j, 0, b.Nbfun.t)
+                    ctx.prove("%s/block%d" % (pre, j), fn, tm.eq(ed.get((tm.add(row, r.t), k_.t)), tm.add(b.element_dofs.get((r.t, k_.t)), off)), hyps=c.all_hyps(),
+                              clause="element_dofs[sum_{i<%d} Nbfun_i + r, k] == bases[%d].element_dofs[r, k] + %s" % (j, j, "0 (equal_dofnum)" if equal else "sum_{i<%d} N_i" % j),
+                              replay=dict(kind="blocks"))
+                    row = tm.add(row, b.Nbfun.t)
+                    if not equal:
+                        off = tm.add(off, b.N.t)
+                ctx.prove(pre + "/sizes", ctx.function(CBm.CompositeBasis.N.fget), tm.and_(tm.eq(sarr._t(N), bases[0].N.t if equal else off), tm.eq(sarr._t(Nbf), row), tm.eq(sarr._t(ed.shape[0]), row)),
+                          hyps=c.all_hyps(), clause="N == sum of the components' N (or N_0 with equal_dofnum), Nbfun == sum Nbfun_i == element_dofs.shape[0]")
+    # split / interpolate offsets (executed: concrete sizes, all n)
+    fs = ctx.function(CBm.CompositeBasis.split)
+    for nb in (2, 3, 4):
+        class B2:
+            def __init__(self, n):
+                self.N, self.Nbfun, self.W, self.elem = n, 1, [0.], None
+                self.element_dofs = np.zeros((1, 2), dtype=int)
+
+            def interpolate(self, x):
+                return ("interp", self.N, tuple(x.tolist()))
+        bs = [B2(n) for n in (3, 1, 4, 2)[:nb]]
+        cb = CBm.CompositeBasis(*bs)
+        x = np.arange(float(sum(b.N for b in bs)))
+        parts = cb.split(x)
+        offs = np.concatenate([[0], np.cumsum([b.N for b in bs])])
+        ok = len(parts) == nb and all(np.array_equal(parts[i][0], x[offs[i]:offs[i + 1]]) and parts[i][1] is bs[i] for i in range(nb))
+        it = cb.interpolate(x)
+        ok &= it == tuple(("interp", bs[i].N, tuple(x[offs[i]:offs[i + 1]].tolist())) for i in range(nb))
+        ctx.fact("composite/n%d/split-interpolate" % nb, fs, bool(ok), "split / interpolate do not cut the coefficient vector at the cumulative sizes", clause="split(x)[i] == (x[off_i:off_{i+1}], bases[i]); interpolate alike",
+                 backend="path-execution", replay=dict(kind="blocks"))
+
+
+UNITS["composite-basis"] = composite_basis
+
+
 def standin_blocks(ctx):
     import time
     from skv import core
